@@ -148,17 +148,19 @@ def s_frame(draw):
         # is a frame with a non-zero checksum, whatever a receiver makes of the ambiguity
         kind = "df17"
         smear = draw(st.lists(gen.uint(5, 111), min_size=1, max_size=2, unique=True))
+    # payloads: uniformly random, or a corner content (an empty register / ME field, all ones, a single bit, alternating bits)
+    payload = st.one_of(gen.ubits(56), gen.ubits(56), gen.ubits(56), gen.ubits(56), st.sampled_from([0, 0, (1 << 56) - 1, 1, 1 << 55, 0xAAAAAAAAAAAAAA, 0x55555555555555]))
     if kind in ("df17", "bad17"):
-        v = frames.df17(draw(gen.ubits(24)), draw(gen.ubits(56)), ca=draw(gen.uint(0, 7)))
+        v = frames.df17(draw(gen.ubits(24)), draw(payload), ca=draw(gen.uint(0, 7)))
         if kind == "bad17":
             for b in draw(st.lists(gen.uint(5, 111), min_size=1, max_size=3, unique=True)):
                 v ^= 1 << (111 - b)
         msg = "%028X" % v
     elif kind == "commb":
-        msg = "%028X" % frames.commb(draw(st.sampled_from([20, 21])), draw(gen.ubits(24)), draw(gen.ubits(56)), draw(gen.ubits(27)))
+        msg = "%028X" % frames.commb(draw(st.sampled_from([20, 21])), draw(gen.ubits(24)), draw(payload), draw(gen.ubits(27)))
     else:
         msg = "%014X" % frames.raw(draw(st.sampled_from([4, 5, 11])), draw(gen.ubits(27)), 56, draw(gen.ubits(24)))
-    amp = draw(st.one_of(gen.ufloat(0.3, 1.4), gen.ufloat(0.3, 0.9), st.sampled_from([0.3, 1.4, 1.0])))
+    amp = draw(st.one_of(gen.ufloat(0.3, 1.4), gen.ufloat(0.3, 0.9), st.sampled_from([0.3, 1.4, 1.0]), st.sampled_from([0.3, 1.4, 0.3, 1.4, 0.31, 1.39])))   # (last: the weakest next to the strongest in one buffer)
     # the gap behind a frame: at least one frame length of noise - 112 samples (56 us) behind a short frame, 224 behind a long one
     least = len(msg) * 8
     if smear:
@@ -175,10 +177,14 @@ def s_case(draw):
         items = draw(st.lists(s_frame(), min_size=1, max_size=4))
         if draw(gen.uint(0, 2)) == 0:  # the last frame ends close to, or exactly at, the end of its buffer (the next buffer starts with >= 400 noise samples)
             items[-1] = dict(items[-1], gap=draw(st.one_of(st.sampled_from([0, 1, 2, 113, 114]), gen.uint(0, 239))))
-        bufs.append({"lead": draw(st.one_of(st.sampled_from([400, 401]), gen.uint(400, 900))),
+        bufs.append({"lead": draw(st.one_of(st.sampled_from([400, 401]), gen.uint(400, 900))) if bufs or draw(gen.uint(0, 3)) else draw(st.sampled_from([0, 0, 1, 2, 15, 16])),   # the first buffer may open with a preamble at sample 0
                      "items": items,
                      "shape": draw(st.sampled_from(["zero", "constant", "uniform", "uniform", "two-level", "mostly-on"])), "nseed": draw(gen.ubits(32)),
                      "rho": draw(st.one_of(gen.ufloat(0.0, 0.316), gen.ufloat(0.2, 0.316), st.sampled_from([0.0, 0.0, 0.25, 0.3159])))})
+        if bufs[-1]["lead"] < 400:
+            # the reader measures the noise floor as the lowest mean of an aligned 100 us window (200 samples): a buffer has to contain one that
+            # is all noise (a real buffer is 100 ms long and always does) - here behind the last frame
+            bufs[-1]["items"][-1] = dict(bufs[-1]["items"][-1], gap=max(bufs[-1]["items"][-1]["gap"], 640))
         if bufs[-1]["shape"] == "mostly-on":
             # here the level is set against the noise floor as the reader measures it - the mean of a 100 us window: 0.70 n, at most 0.83 n for
             # any single window (4 sigma of 200 samples) - so that the pulses (>= n / 0.37 = 2.7 n) stay 10 dB above every window mean, while the
